@@ -529,6 +529,15 @@ func (x *Exec) evalCall(c *evalCtx, call ECall) (Val, error) {
 		return intV(app("str.indexof", SInt, a[0].T, a[1].T, IntT(0))), nil
 	case "substr":
 		return strV(app("str.substr", SStr, a[0].T, a[1].T, Sub(a[2].T, a[1].T))), nil
+	case "trimPrefix":
+		// strings.TrimPrefix(s, p)
+		return strV(Ite(app("str.prefixof", SBool, a[1].T, a[0].T), app("str.substr", SStr, a[0].T, StrLen(a[1].T), Sub(StrLen(a[0].T), StrLen(a[1].T))), a[0].T)), nil
+	case "ifaceOf":
+		// ifaceOf(p): the interface value holding pointer p (as built by the conversion of p to any interface type)
+		if a[0].K == VIface {
+			return a[0], nil
+		}
+		return x.makeInterface(st, a[0], a[0].GoT, types.NewInterfaceType(nil, nil)), nil
 	case "min":
 		return intV(Ite(Le(a[0].T, a[1].T), a[0].T, a[1].T)), nil
 	case "max":
@@ -595,15 +604,77 @@ func (x *Exec) evalCall(c *evalCtx, call ECall) (Val, error) {
 			return intV(a[0].Ref), nil
 		}
 		return intV(a[0].T), nil
-	case "isNotFound", "isTemporary", "isDuplicate", "isClosed":
-		x.Reg.DeclareFun("err!"+call.Fn, []string{SInt}, SBool)
-		return boolV(app(sym("err!"+call.Fn), SBool, a[0].T)), nil
+	case "isNotFound", "isTemporary", "isDuplicate", "isClosed", "isCtxErr":
+		return boolV(x.errPred(call.Fn, a[0].T)), nil
+	case "neverCancelled":
+		// neverCancelled(ctx): the context is not cancelled at any time during the call
+		x.ufun("neverCancelled", []string{SInt}, SBool)
+		return boolV(app("neverCancelled", SBool, a[0].T)), nil
+	case "rangeVisited":
+		// rangeVisited(k): key k has been yielded by the (unique) map iteration of the function under verification
+		if c.fr == nil {
+			return Val{}, fmt.Errorf("rangeVisited outside a function body")
+		}
+		var itv *Val
+		for sv, v := range c.fr.Env {
+			if _, ok := sv.(*ssa.Range); ok && v.K == VTuple && len(v.Parts) > 1 {
+				if itv != nil {
+					return Val{}, fmt.Errorf("rangeVisited: more than one map iteration in %s", funcKey(c.fr.Fn))
+				}
+				vv := v
+				itv = &vv
+			}
+		}
+		if itv == nil {
+			return Val{}, fmt.Errorf("rangeVisited: no map iteration in scope")
+		}
+		_, _, ks := x.mapArrays(itv.Parts[0].GoT)
+		inner := arrSort(ks, SBool)
+		vis := Select(x.heapCur(st, itVisited+"!"+ks, x.itSort(ks)), itv.Parts[1].T, inner)
+		return boolV(Select(vis, a[0].T, SBool)), nil
+	case "dynIs":
+		// dynIs(iface, "types.NodeInformation"): the interface holds a pointer to that named type
+		x.declIfaceFns()
+		mt := x.lookupNamed(strings.Trim(a[1].T.S, `"`))
+		if mt == nil {
+			return Val{}, fmt.Errorf("dynIs: unknown type %s", a[1].T.S)
+		}
+		pt := types.NewPointer(mt)
+		if a[0].K == VIface && a[0].Dyn != nil {
+			return boolV(BoolT(types.Identical(a[0].Dyn, pt))), nil
+		}
+		x.declareTagDistinct(pt)
+		return boolV(Eq(app("dyntag", SInt, a[0].T), x.typeTag(pt))), nil
+	case "as":
+		// as(iface, "types.NodeInformation"): the pointer held by the interface, typed
+		x.declIfaceFns()
+		mt := x.lookupNamed(strings.Trim(a[1].T.S, `"`))
+		if mt == nil {
+			return Val{}, fmt.Errorf("as: unknown type %s", a[1].T.S)
+		}
+		pt := types.NewPointer(mt)
+		if a[0].K == VIface && a[0].Dyn != nil && a[0].Payload != nil && types.Identical(a[0].Dyn, pt) {
+			pv := *a[0].Payload
+			pv.GoT = pt
+			return pv, nil
+		}
+		if a[0].K != VIface {
+			v := a[0]
+			v.GoT = pt
+			return v, nil
+		}
+		return scalar(app("payl", SInt, a[0].T), pt), nil
 	case "implements":
 		// implements(iface, "NodeIdLoader")
 		x.declIfaceFns()
 		lit := strings.Trim(a[1].T.S, `"`)
 		pn := "impl!" + lit
 		x.Reg.DeclareFun(pn, []string{SInt}, SBool)
+		if mt := x.lookupNamed(lit); mt != nil {
+			if it, ok := mt.Underlying().(*types.Interface); ok {
+				x.noteImplPred(pn, it)
+			}
+		}
 		return boolV(And(Neq(a[0].T, IntT(0)), app(sym(pn), SBool, app("dyntag", SInt, a[0].T)))), nil
 	case "now":
 		// now(k): k-th clock reading of the call; now(last): last reading
